@@ -9,13 +9,6 @@ pub open spec fn opt_deref(o: Option<&Ident>) -> Option<Ident> {
 }
 
 impl Runner {
-    // contract of the real `Runner::ident` (iterator-adapter body, not Verus-extractable);
-    // discharged on the real function by Kani unit k_runner_ident.
-    #[verifier::external_body]
-    pub fn ident(&self, index: usize) -> (r: Option<&Ident>)
-        ensures opt_deref(r) == spec_ident(*self, index as int),
-    { unimplemented!() }
-
     // `(self.runner)(ctx)`: the closure body.  Weakest assumption: arbitrary outcome, arbitrary
     // effect on the variable store (it may assign the parameters, declare variables, fail).
     #[verifier::external_body]
@@ -23,17 +16,6 @@ impl Runner {
         ensures final(ctx).trace@ == old(ctx).trace@.push(Ev::RunClosure(r)),
     { unimplemented!() }
 }
-
-// contract of the real `closure::insert` (`Option::and_then` + swap_variable); discharged by Kani
-// unit k_closure_insert.
-#[verifier::external_body]
-pub fn insert(state: &mut RuntimeState, ident: Option<&Ident>, data: Value) -> (r: Option<Value>)
-    ensures
-        match ident {
-            Some(i) => final(state).vars@ == old(state).vars@.insert(i.id, data) && r == lookup(old(state).vars@, i.id),
-            None => final(state).vars@ == old(state).vars@ && r is None,
-        },
-{ unimplemented!() }
 
 #[verifier::external_body]
 pub fn usize_into_value(i: usize) -> (r: Value) { unimplemented!() }
